@@ -7,6 +7,7 @@ import importlib
 PARTS = ['c03_http', 'c03_ws', 'c03_json', 'c03_conf']
 RULE = 'see coverage.part_rules'
 ASSUMPTIONS = []
+NEEDS_TOKIO = True
 
 
 def _mods():
